@@ -379,11 +379,14 @@ class NpEval:
         self.excluded = None
         self.warn = None
         self.eps = 0.0   # eps of the least precise floating dtype met anywhere
+        self.nonfinite = False  # an intermediate of the NumPy evaluation is inf/NaN
 
     def note(self, a):
         a = np.asarray(a)
         if a.dtype.kind in "fc":
             self.eps = max(self.eps, float(np.finfo(a.dtype).eps))
+            if a.size and not np.all(np.isfinite(a)):
+                self.nonfinite = True
         if a.size and a.dtype.kind in "fciu":
             with np.errstate(all="ignore"):
                 m = np.abs(a[np.isfinite(a)]) if a.dtype.kind in "fc" else np.abs(a.astype(np.float64))
